@@ -24,6 +24,8 @@ WholeI == Q({-12, -8, -4, 0, 4, 8, 12, 16, 20})
 Idx == WholeI \cup Q({2, -2})
 StrLists == {SeqV(TList(TStr), s) : s \in SeqsUpTo({S(<<"a">>), S(<<>>), S(<<"b", "acute">>)}, 2)} \cup {SeqV(TList(TStr), <<S(<<"a">>), Null(TStr)>>), SeqV(TList(TStr), <<S(<<"x">>), S(<<"b">>), S(<<"c">>)>>)}
 
+LitPats == SeqsUpTo({"a", "b", "c"}, 3) \ {<<>>}
+LitSubjects == {<<>>, <<"a">>, <<"a", "b", "a", "b", "c">>, <<"c", "c", "a", "a", "a">>, <<"b", "c", "b", "c", "b">>, <<"a", "b", "c", "a", "b", "c", "a">>}
 \* ---- format strings from the verb grammar
 FlagSets == {<<>>, <<"-">>, <<"0">>, <<"+">>, <<" ">>, <<"#">>, <<"-", "0">>, <<"0", "+">>, <<"+", " ">>, <<"-", "+">>, <<"0", " ">>}
 Widths == {<<>>, <<"1">>, <<"3">>, <<"6">>}
@@ -89,6 +91,9 @@ ArgLists ==
     [] Fn = "split" -> {<<S(sep), S(s)>> : sep \in Cut, s \in StrAll}
     [] Fn = "indent" -> {<<n, S(s)>> : n \in Q({-4, 0, 4, 8, 2, 12}), s \in StrW \cup {<<>>, <<"LF">>, <<"a">>}}
     [] Fn \in {"trim", "trimprefix", "trimsuffix"} -> {<<S(s), S(c)>> : s \in StrAll, c \in Cut}
+    \* literal patterns: every non-empty string over {a, b, c} up to length 3 (39 patterns), each met again under every subject
+    [] Fn \in {"regex", "regexall"} -> {<<S(p), S(s)>> : p \in LitPats, s \in LitSubjects}
+    [] Fn = "regexreplace" -> {<<S(s), S(p), S(r)>> : s \in LitSubjects, p \in LitPats, r \in {<<>>, <<"c", "c">>}}
     [] Fn = "replace" -> {<<S(s), S(o), S(n)>> : s \in StrR \cup {<<>>, <<"a">>, <<"x", "b", "acute", "d">>}, o \in Cut, n \in {<<>>, <<"x">>, <<"a", "a">>, <<"b", "acute">>}}
     [] Fn = "format" -> FormatLists
     [] Fn = "formatlist" -> FormatListLists
